@@ -648,10 +648,10 @@ def build_hooks(c: Contract):
     return hooks
 
 
-def solve_all(res: UnitResult, budget_s=30.0, both=False):
+def solve_all(res: UnitResult, budget_s=30.0, both=False, par=4):
     t0 = time.time()
     from .solve import solve_many
 
-    solve_many(res.vcs, budget_s=budget_s, both=both)
+    solve_many(res.vcs, budget_s=budget_s, both=both, par=par)
     res.secs_solve = time.time() - t0
     return res
